@@ -3,6 +3,7 @@ package main
 import (
 	"fmt"
 	"go/ast"
+	"go/token"
 	"go/types"
 	"os"
 	"sort"
@@ -468,7 +469,6 @@ func c11FreshPointers(c *Ctx, dec map[string]*ssa.Function) {
 	c.extra["pointer_stores_in_loops"] = n
 }
 
-
 const fuzzPkg = "internal/fuzz"
 
 // c11Fuzz: fuzz-protocol message types.
@@ -573,6 +573,80 @@ func c11Fuzz(c *Ctx, cs codecSide) {
 			"type "+k+" ↔ field "+tabM[k]+" in both directions", fmt.Sprintf("message type %s is marshalled from field %q but read into field %q", k, tabM[k], tabR[k]))
 	}
 	c.Check(defM && defR, "C11.fuzz-messages", fuzzPkg+".Message · unknown type", 0, "both default arms return an error", "a default arm of the message-type switch does not return an error")
+
+	c.Rule("C11.frame-consumption", "the stream handed to Message.ReadFrom flows only into consumers that take an exact number of bytes from it (binary.Read, io.ReadFull, io.ReadAtLeast, io.CopyN) or into io.LimitReader, whose result may be drained freely; a buffering wrapper or an until-EOF reader applied to the stream itself takes bytes of the next frame, so decoding no longer consumes exactly the encoded bytes", 3)
+	if f := c.Fn(fuzzPkg, "Message.ReadFrom"); f != nil && len(f.Params) == 2 {
+		exactStreamConsumers(c, "C11.frame-consumption", f, f.Params[1])
+	}
+}
+
+// exactStreamConsumers follows the stream value through interface conversions,
+// phis and module helpers and classifies every call it reaches.
+func exactStreamConsumers(c *Ctx, rule string, f0 *ssa.Function, seed ssa.Value) {
+	type item struct {
+		f *ssa.Function
+		v ssa.Value
+	}
+	seen := map[ssa.Value]bool{}
+	work := []item{{f0, seed}}
+	for len(work) > 0 {
+		it := work[len(work)-1]
+		work = work[:len(work)-1]
+		if seen[it.v] || it.v.Referrers() == nil {
+			continue
+		}
+		seen[it.v] = true
+		for _, r := range *it.v.Referrers() {
+			switch x := r.(type) {
+			case *ssa.MakeInterface, *ssa.ChangeInterface, *ssa.ChangeType, *ssa.Phi, *ssa.TypeAssert:
+				work = append(work, item{it.f, x.(ssa.Value)})
+			case *ssa.Store:
+				// reader = wrap(reader): the parameter cell
+				if a, ok := x.Addr.(*ssa.Alloc); ok && x.Val == it.v {
+					for _, r2 := range *a.Referrers() {
+						if u, ok := r2.(*ssa.UnOp); ok && u.Op == token.MUL {
+							work = append(work, item{it.f, u})
+						}
+					}
+				} else if x.Val == it.v {
+					c.Bad(rule, funcKey(it.f)+" · stored", x.Pos(), "the stream is stored into %s: its later consumers cannot be enumerated", exprStr(x.Addr, shapeOpts))
+				}
+			case ssa.CallInstruction:
+				cc := x.Common()
+				name := ""
+				if cc.IsInvoke() {
+					name = "io.Reader." + cc.Method.Name()
+				} else if sc := cc.StaticCallee(); sc != nil {
+					name = sc.String()
+				} else {
+					c.Unknown(rule, funcKey(it.f)+" · dynamic call", x.Pos(), "cannot resolve the callee the stream is passed to")
+					continue
+				}
+				key := funcKey(it.f) + " · " + name
+				switch name {
+				case "encoding/binary.Read", "io.ReadFull", "io.ReadAtLeast", "io.CopyN":
+					c.OK(rule, key, x.Pos(), "takes an exact byte count from the stream")
+				case "io.LimitReader":
+					c.OK(rule, key, x.Pos(), "bounded view: draining it takes at most the limit from the stream")
+				case "io.Reader.Read":
+					c.OK(rule, key, x.Pos(), "a single Read takes at most len(p) bytes")
+				case "bufio.NewReader", "bufio.NewReaderSize", "bufio.NewScanner", "io.ReadAll", "io.Copy", "io.TeeReader", "io.MultiReader", "(*bytes.Buffer).ReadFrom":
+					c.Bad(rule, key, x.Pos(), "%s applied to the stream itself reads ahead / until EOF: bytes of the following frame are taken and lost, so decoding does not consume exactly the encoded bytes", name)
+				default:
+					sc := cc.StaticCallee()
+					if sc != nil && len(sc.Blocks) > 0 && sc.Pkg != nil && strings.HasPrefix(sc.Pkg.Pkg.Path(), modPath) {
+						for ai, a := range cc.Args {
+							if a == it.v && ai < len(sc.Params) {
+								work = append(work, item{sc, sc.Params[ai]})
+							}
+						}
+						continue
+					}
+					c.Unknown(rule, key, x.Pos(), "the stream is passed to %s, whose consumption is not in the rule's table", name)
+				}
+			}
+		}
+	}
 }
 
 // switchFieldTable: for the method's `switch recv.Type`, map each case constant
@@ -627,7 +701,6 @@ func (c *Ctx) switchFieldTable(rel, name string) (tab map[string]string, defErr 
 	})
 	return
 }
-
 
 // clonesViaHelper: the returned shape is a call of a method of the same
 // package all of whose non-nil results are bytes.Clone(...) (a wrapper around the copy).
